@@ -22,6 +22,9 @@ pub struct ServerState {
   pub(super) checked_modules: HashMap<ModuleReference, Module<Arc<Type>>>,
   pub(super) global_cx: GlobalSignature,
   pub(super) errors: HashMap<ModuleReference, Vec<CompileTimeError>>,
+  #[cfg(samlang_verif)]
+  /// verification hook H2: the recheck set of the most recent edit
+  pub verif_last_recheck: Vec<ModuleReference>,
 }
 
 impl ServerState {
@@ -58,6 +61,8 @@ impl ServerState {
         checked_modules,
         global_cx,
         errors,
+        #[cfg(samlang_verif)]
+        verif_last_recheck: Vec::new(),
       }
     })
   }
@@ -68,6 +73,10 @@ impl ServerState {
   /// - Dependency graph updated
   /// - recheck_set is the conservative estimate of moduled need to recheck
   fn recheck(&mut self, mut error_set: ErrorSet, recheck_set: &HashSet<ModuleReference>) {
+    #[cfg(samlang_verif)]
+    {
+      self.verif_last_recheck = recheck_set.iter().copied().collect();
+    }
     // Type Checking (parallel)
     let parsed_modules = &self.parsed_modules;
     let global_cx = &self.global_cx;
@@ -106,6 +115,18 @@ impl ServerState {
         self.checked_modules.keys().copied().collect(),
       )
     });
+  }
+
+  #[cfg(samlang_verif)]
+  /// verification hook H2: read-only view of the map domains
+  pub fn verif_domains(&self) -> [Vec<ModuleReference>; 5] {
+    [
+      self.string_sources.keys().copied().collect(),
+      self.parsed_modules.keys().copied().collect(),
+      self.checked_modules.keys().copied().collect(),
+      self.global_cx.keys().copied().collect(),
+      self.errors.keys().copied().collect(),
+    ]
   }
 
   pub fn all_modules(&self) -> Vec<&ModuleReference> {
